@@ -373,15 +373,18 @@ def corpus_part(res, scratch, tier, seed, prop, matrix, kinds, trees=False, reco
 
 
 # ------------------------------------------------------------------ C09
+def parse_obs(r):
+    return {"rc": r["rc"], "root": r["root"], "amb": r["amb"], "calls": r["calls"], "trees": sorted(r["trees"]), "over": r["over"], "thash": r["thash"]}
+
+
 def la_groups(recs, lib="c"):
     groups = {}
     for r in recs:
         if r.get("k") != "parse":
             continue
         key = (r["g"], r["w"], r["one"], r["cost"], r["rec"], r["match"])
-        groups.setdefault(key, []).append({"la": r["la"], "dbg": r["dbg"], "rc": r["rc"], "root": r["root"], "amb": r["amb"],
-                                           "calls": r["calls"], "trees": r["trees"], "over": r["over"], "thash": r["thash"]})
-    return [{"id": "%s/%s/%d,%d,%d,%d" % k, "outs": v} for k, v in groups.items() if len(v) > 1]
+        groups.setdefault(key, []).append({"la": r["la"], "dbg": r["dbg"], "obs": parse_obs(r)})
+    return [{"id": "%s/%s/%d,%d,%d,%d" % k, "kind": "C09", "outs": v} for k, v in groups.items() if len(v) > 1]
 
 
 def check_C09(res, scratch, tier, seed):
@@ -451,7 +454,7 @@ def check_C09(res, scratch, tier, seed):
     res.cov["traces_validated_against_impl"] += len(all_groups)
     for (lno, gid, reasons) in rej:
         g = all_groups[lno - 1]
-        res.violation("trace|" + reasons[0], {"group": g["id"], "outs": [{k: (v if k != "trees" else v[:3]) for k, v in o.items()} for o in g["outs"][:6]]})
+        res.violation("trace|" + reasons[0], {"group": g["id"], "outs": g["outs"][:6]})
     res.cov["samples"].append({"group": all_groups[len(all_groups) // 2]} if all_groups else "none")
     res.notes["groups"] = len(all_groups)
 
@@ -662,3 +665,89 @@ def check_C17(res, scratch, tier, seed):
     res.cov["distinct_nontrivial"] = total_inj
     res.cov["samples"].append({"scenario": [l for l in api_behaviour_block("s0", uniq[0], inputs, fault_k=7) if not l.startswith("G ")]})
     res.notes["scenarios"] = len(uniq)
+
+
+# ------------------------------------------------------------------ C16 (C++ interface = C interface)
+def check_C16(res, scratch, tier, seed):
+    builds = [build(scratch, "plain", ("yv_replay", "yv_api"))]
+    asan = build(scratch, "asan", ("yv_replay", "yv_api"))
+    res.cov["trusted_base"] = TB
+    res.cov["rule"] = ("the same source of every harness is built against libyaep (C functions) and libyaep++ (class yaep only); (1) the corpus vectors judged by TLC "
+                       "(curated, random, with error rules, with translations) and a small enumerated family are parsed through both, under a configuration matrix, "
+                       "and TLC validates (LaTrace.tla, kind C16) that each pair of recorded outcomes - return code, callbacks, ambiguity flag, denoted trees with "
+                       "costs, DAG hash, and for definitions return code and error message - is one observation; the C++ outcomes are also compared with the TLC "
+                       "vectors; (2) the API behaviours of Api.tla are executed through class yaep (plain and ASan) against the same specification; "
+                       "non-trivial = pairs with a syntax error, an ambiguity or a failing definition")
+    matrix = [(la, one, cost, rec, 3, 0) for la in (0, 1, 2) for (one, cost, rec) in ((1, 0, 1), (0, 0, 0), (0, 1, 1), (1, 1, 0))]
+    ents = corpus_entries(tier, seed, ("curated", "chains", "random", "random_err", "random_trans"))
+    vecs = corpus_vectors(res, scratch, "corpus_C16", ents, trees=True, timeout=3000)
+    blocks = []
+    for v in vecs.values():
+        b = blocks_from_vector(v, matrix, mems=(0, 1))
+        if b:
+            blocks.append(b)
+        else:    # rejected definitions: both strictness levels, error messages compared
+            blocks.append(blocks_from_vector(v, [], define_only=True))
+    outs = {}
+    mine_cpp = lambda r: classify(dict(r))
+    for lib, suffix in (("c", ""), ("c++", "xx")):
+        recs, st = run_harness(os.path.join(builds[0], "yv_replay" + suffix), blocks, args=("-t",))
+        for r in recs:
+            if r.get("k") == "summary":
+                res.cov["evaluations"] += r["parses"] + r["defs"]
+            elif r.get("k") == "parse":
+                outs.setdefault(("p", r["g"], r["w"], r["la"], r["one"], r["cost"], r["rec"], r["match"]), []).append({"lib": lib, "obs": parse_obs(r)})
+            elif r.get("k") == "def":
+                outs.setdefault(("d", r["g"], r["cfg"]), []).append({"lib": lib, "obs": {"rc": r["rc"], "err": r["err"], "msg": r["msg"]}})
+            elif r.get("k") == "mismatch" and lib == "c++":
+                key = classify(dict(r))
+                # what the C library also does wrong is judged by the property that owns it; C16 reports C++-only deviations through the pairs below
+                res.notes["cxx_vector_mismatches"] = res.notes.get("cxx_vector_mismatches", 0) + 1
+            elif r.get("e") == "Abort":
+                res.violation(abort_key(r) + ":" + lib, dict(r, block=(r.get("block") or [])[:30]))
+    groups = [{"id": "/".join(map(str, k)), "kind": "C16", "outs": v} for k, v in outs.items()]
+    unpaired = [g for g in groups if len(g["outs"]) != 2]
+    for g in unpaired[:20]:
+        res.violation("C16|outcome recorded for one library only", {"group": g["id"], "outs": g["outs"]})
+    groups = [g for g in groups if len(g["outs"]) == 2]
+    ok, rej, tt = validate_trace(scratch, "LaTrace", groups, "cxxpairs", timeout=1500)
+    if not ok:
+        raise Infra("LaTrace (C16) validation did not finish: " + tt["tail"][-2000:])
+    res.cov["states"] += tt.get("distinct", 0)
+    res.cov["transitions"] += tt.get("states", 0)
+    res.cov["traces_validated_against_impl"] += len(groups)
+    for (lno, gid, reasons) in rej:
+        res.violation("trace|" + reasons[0], {"group": groups[lno - 1]["id"], "outs": groups[lno - 1]["outs"]})
+    res.cov["distinct_nontrivial"] += sum(1 for g in groups if g["outs"][0]["obs"].get("calls") or g["outs"][0]["obs"].get("amb") or g["outs"][0]["obs"].get("msg"))
+    res.cov["samples"].append({"pair": groups[len(groups) // 3]})
+    # (2) API behaviours through class yaep
+    save = dict(res.cov)
+    run_api_cxx(res, scratch, tier, seed, [builds[0], asan])
+
+
+def run_api_cxx(res, scratch, tier, seed, builds):
+    nbeh = 800 if tier == "quick" else 6000
+    depth = 24
+    t = run_tlc(scratch, "Api", api_cfg([1, 2], depth, [-1, 0, 1, 2, 3], [0, 1, 3], [0, 2], ["EmitPools"]), "api_sim_cxx",
+                simulate=max(1, nbeh // NCPU), depth=depth + 3, timeout=1500, extra=("-seed", str(seed + 7)))
+    pools, behs = None, []
+    for v in tlc_vectors(t["out"]):
+        if "defs" in v:
+            pools = pools or v
+        elif "hist" in v:
+            behs.append(v["hist"])
+    if pools is None or not behs:
+        raise Infra("no behaviours printed by TLC\n" + t["tail"][-2000:])
+    pool_lines, inputs = api_pool_lines(pools, codemap="gap")
+    blocks = [[("G b%d" % i)] + pool_lines + api_behaviour_block("b%d" % i, h, inputs)[1:] for i, h in enumerate(behs)]
+    for bdir in builds:
+        recs, st = run_harness(os.path.join(bdir, "yv_apixx"), blocks)
+        for r in recs:
+            if r.get("k") == "summary":
+                res.cov["evaluations"] += r.get("ops", 0)
+            elif r.get("k") == "mismatch":
+                res.violation("C16|class yaep: " + r["what"], dict(r, build=os.path.basename(bdir), behaviour=_beh_of(blocks, r.get("g"))))
+            elif r.get("e") == "Abort":
+                blk = r.get("block")
+                res.violation(abort_key(r) + ":c++", dict(r, block=[l for l in (blk or []) if l[:2] in ("B ", "c ", "f ", "s ", "d ", "p ", "x")], build=os.path.basename(bdir)))
+        res.cov["traces_validated_against_impl"] += len(blocks)
